@@ -131,6 +131,9 @@ func classify(msg string) string {
 		return "num.syntax"
 	case strings.Contains(msg, " is not a valid decimal number: strconv.ParseInt: parsing ") && strings.HasSuffix(msg, ": value out of range"):
 		return "num.range"
+	case strings.HasSuffix(msg, " is not a valid decimal number"):
+		// the guard of the repaired decimalValueFromString (D10-S1): a point directly followed by a sign
+		return "num.syntax"
 	case strings.Contains(msg, " has too much precision, expect <= "):
 		return "num.precision"
 	case msg == "range not sorted":
@@ -2004,7 +2007,6 @@ func main() {
 	sibPerName := map[string]int64{}
 	sibSeconds, sibFatal, sibOther := 0.0, int64(0), int64(0)
 	distinct := lib.NewDistinct()
-	knownS1 := 0
 	var nontriv, evals int64
 	okSteps, errSteps := int64(0), int64(0)
 	writtenSteps, writtenJudged := int64(0), int64(0)
@@ -2278,15 +2280,6 @@ func main() {
 			return found[a].SpecVerdict == "violates" && found[b].SpecVerdict != "violates"
 		})
 		for _, dd := range found {
-			// known finding D10-S1: the signature is computed by spec.step (Drv/Range.lean, pointBeforeSign): the
-			// outcome is the model's and is condemned only because bounds of that one shape are accepted
-			if dd.Kind == "spec" && strings.Contains(dd.What, "known finding D10-S1") {
-				knownS1++
-				if knownS1 > 3 {
-					continue
-				}
-				dd.Known = "D10-S1"
-			}
 			if len(res.Disagreements) >= 50 {
 				res.Count("disagreements_not_examined", 1)
 				continue
@@ -2367,7 +2360,6 @@ func main() {
 	res.Distribution["cases_methods"] = len(mcs)
 	res.Distribution["seconds_methods"] = float64(int(time.Since(tB).Seconds()*10)) / 10
 	res.Distribution["contains_pairs_checked_against_spec"] = sdcPairs
-	res.Distribution["outcomes_of_known_finding_D10-S1"] = knownS1
 	res.Distribution["steps_accepted"] = okSteps
 	res.Distribution["steps_rejected"] = errSteps
 	res.Distribution["long_literal_steps"] = writtenSteps
@@ -2390,7 +2382,7 @@ func main() {
 	res.Evaluations = evals
 	res.DistinctNontrivial = nontriv
 	res.Exhaustive = true
-	res.Rule = "restriction chains = (mode int|dec|len, base type or none, fraction-digits, list of restriction texts); exhaustive grids: all texts of 1 part (and of 2 and 3 parts over smaller sets) with bounds from {min, max, 0, -0, +-1, every integer type's limits and limits+-1, 2^63-1, 2^63, 2^64-1, 2^64} called directly and under each of the 8 integer types x 8 (thorough 12) earlier restrictions of it through YANG typedef chains; the same for lengths and for decimal64 at fraction-digits 1, 2, 17, 18 (thorough: 1..18); groups of chains that differ only in the interior of the parent (same outer bounds, same child text) resolved inside one module; literal-syntax tokens (white space incl. Unicode, base-0 literals, underscores, signs, keywords, 1..6 dots, empty parts) in all pairs; seeded random chains of depth 1..4, ordered random chains, random texts over the grammar's alphabet; every stride-th chain with a parent (all of the syntax tokens and random chains) is run once more with its last restriction placed on a member of a union whose earlier member is the unrestricted parent type (built-in or typedef; 2nd member, 3rd member, union inside a typedef, further member after it): error and range must be those of the plain placement; the same chains with the last restriction in the type of a deviate replace/add on a leaf or leaf-list of another module; chains of two or more steps with the earlier steps in an imported module that is replaced by a newer revision (with / without the restrictions) between two Process runs on the same Modules, the last restriction on a union member inside a typedef of the importing module: after the second run the outcome must be the one for the new parent; sibling placements (siblings.go): the last restriction next to every other substatement a type statement can carry, before it and after it (pattern valid / invalid regexp / with modifier and messages / twice, openconfig-extensions:posix-pattern valid / invalid / twice / with a body / together with pattern, extensions of another module, of the own module, other extensions of openconfig-extensions, nested, without argument, with an unbound prefix, fraction-digits on a non-decimal type / repeated on a decimal typedef / written after the range, the other restriction kind admissible and inadmissible (length beside range, range beside length), enum, duplicate enum, bit, base known / unknown, path, require-instance valid / invalid, a member type), with substatements of its own (error-message, error-app-tag, description, reference, extensions, empty body), and its type statement next to units / default / description / reference / status / extensions of the enclosing typedef and units / default / mandatory / config / must / when / extensions of the enclosing leaf; each of these in a leaf, a typedef used by a leaf, a union member of a leaf, a union member inside a typedef, the type of a deviate replace, a leaf of a used grouping and a leaf-list inside a list: all combinations for the corpus chains, one combination (walking through the list) for every 2nd selected chain of the other sections, every case in a Modules value of its own; the outcome (error of the restriction's kind at the restriction's line, else the set read from the entry) must be the model's outcome for the same restriction against the same parent and satisfy the specification; next to a sibling that is in error itself (invalid regexp, duplicate enum, unknown base, fraction-digits on a non-decimal type, an inadmissible restriction of the other kind, require-instance that is not a boolean, a default that is not a number) an inadmissible restriction counts as rejected when any error is reported; next to a sibling that stops the resolution of the type statement (unbound extension prefix, repeated fraction-digits) an inadmissible restriction must still not pass without any error; literals of extreme length and small value (longlits.go): decimal bounds with 19 to 1025 (and 65535 to 65554; thorough also 2^12, 2^15, 2^17) fraction digits that are zeros but for the last one(s), zero fractions, trailing zeros, fractions of nines, integer parts with that many leading zeros (alone, with a fraction inside / one digit beyond the scale), integer and length bounds with that many leading zeros (octal in Go's base-0 syntax: 0...07, 0...08, 0...0377, 0...0400, 2^64-1 and 2^64, 2^63), after 0x / 0b / 0o, with underscores, 1 followed by that many zeros, with signs; each as single value, upper bound after 0 / 1 / min, lower bound before max, between -x and x, beside a second part; called directly and under decimal64 at fraction-digits 1, 2, 9, 18 (core shapes thorough: 1..18) / uint8, int8, uint64, int64 / string lengths and under restricted parents of them; runs of that many blanks, tabs, line feeds, dots, bars, signs; restrictions of 13, 255, 256, 257, 513 parts (apart, touching, descending, identical, overlapping, one outside the parent, one in a gap); seeded random long literals (lengths next to multiples of 256 and 65536, up to three non-zero digits); the Go outcome of each of these is judged by spec.step and once more by spec.written, in which every plain literal is read by its written value in exact arithmetic by a reader that shares nothing with the model's digit loops (Drv/Range.lean, namespace Written); bounds with points (genSyntax, pointBounds): several points, a point next to a sign, a lone point, points with blanks, exponents, hex, underscores, non-ASCII digits and points, each as single value, lower and upper bound, in several parts, read as integer, length and decimal64 bound at fraction-digits 1, 2, 4, 9, 18, directly, under the built-in type and as second step under a restricted parent (spec.step states the literal shape on the characters: a decimal bound is [sign] digits [. digits], an integer or length bound has no point; anything else accepted = accepted although syntactically invalid; outcomes condemned only because a point BEFORE the sign is accepted are the known finding D10-S1, three of them are recorded); pass-through levels (passthrough.go, section pass_through): chains of 2..8 typedef levels in which 1..3 typedefs that add no restriction of the kind (nothing, an empty type body, patterns, units, default, description, status/reference) stand before the first restriction, between any two and after the last, 1..5 restricting steps going down a ladder of nested sets with the last step narrowing, widening (up to the limits of the base type), equal, disjoint and written with min/max, for the eight integer types, decimal64 at fraction-digits 1, 2, 9, 18, string and binary lengths; the levels at the top of one module, split over an imported module, inside a container, split between module level and a list in a container, below an imported prefix inside a used grouping, referenced with and without the own prefix, the last restriction on a typedef or on a leaf (a chain whose last restriction is on a leaf is resolved alone when typedefs of the batch are in error, Process returning before leaves are converted); all systematic layouts with one or two pass-through positions plus seeded random layouts; the outcome must be the model's outcome for the restricting steps alone, every step is judged by spec.step against the set of the restricting step before it, and the leaf of every pass-through typedef must present the inherited set; exported methods Contains/Equal/Validate/Sort/String on all lists of <= 2 parts over {0..4} (Contains: all pairs), over a signed universe with -0, over the 64-bit extremes at fd 0, 1, 18, all lists of 3 parts over {0..3}, random lists. Every Go outcome is compared with the model and judged by the executable specification. distinct_nontrivial = distinct inputs that have more than one part, a min/max keyword or more than one step (chains), or a list of more than one part (methods)"
+	res.Rule = "restriction chains = (mode int|dec|len, base type or none, fraction-digits, list of restriction texts); exhaustive grids: all texts of 1 part (and of 2 and 3 parts over smaller sets) with bounds from {min, max, 0, -0, +-1, every integer type's limits and limits+-1, 2^63-1, 2^63, 2^64-1, 2^64} called directly and under each of the 8 integer types x 8 (thorough 12) earlier restrictions of it through YANG typedef chains; the same for lengths and for decimal64 at fraction-digits 1, 2, 17, 18 (thorough: 1..18); groups of chains that differ only in the interior of the parent (same outer bounds, same child text) resolved inside one module; literal-syntax tokens (white space incl. Unicode, base-0 literals, underscores, signs, keywords, 1..6 dots, empty parts) in all pairs; seeded random chains of depth 1..4, ordered random chains, random texts over the grammar's alphabet; every stride-th chain with a parent (all of the syntax tokens and random chains) is run once more with its last restriction placed on a member of a union whose earlier member is the unrestricted parent type (built-in or typedef; 2nd member, 3rd member, union inside a typedef, further member after it): error and range must be those of the plain placement; the same chains with the last restriction in the type of a deviate replace/add on a leaf or leaf-list of another module; chains of two or more steps with the earlier steps in an imported module that is replaced by a newer revision (with / without the restrictions) between two Process runs on the same Modules, the last restriction on a union member inside a typedef of the importing module: after the second run the outcome must be the one for the new parent; sibling placements (siblings.go): the last restriction next to every other substatement a type statement can carry, before it and after it (pattern valid / invalid regexp / with modifier and messages / twice, openconfig-extensions:posix-pattern valid / invalid / twice / with a body / together with pattern, extensions of another module, of the own module, other extensions of openconfig-extensions, nested, without argument, with an unbound prefix, fraction-digits on a non-decimal type / repeated on a decimal typedef / written after the range, the other restriction kind admissible and inadmissible (length beside range, range beside length), enum, duplicate enum, bit, base known / unknown, path, require-instance valid / invalid, a member type), with substatements of its own (error-message, error-app-tag, description, reference, extensions, empty body), and its type statement next to units / default / description / reference / status / extensions of the enclosing typedef and units / default / mandatory / config / must / when / extensions of the enclosing leaf; each of these in a leaf, a typedef used by a leaf, a union member of a leaf, a union member inside a typedef, the type of a deviate replace, a leaf of a used grouping and a leaf-list inside a list: all combinations for the corpus chains, one combination (walking through the list) for every 2nd selected chain of the other sections, every case in a Modules value of its own; the outcome (error of the restriction's kind at the restriction's line, else the set read from the entry) must be the model's outcome for the same restriction against the same parent and satisfy the specification; next to a sibling that is in error itself (invalid regexp, duplicate enum, unknown base, fraction-digits on a non-decimal type, an inadmissible restriction of the other kind, require-instance that is not a boolean, a default that is not a number) an inadmissible restriction counts as rejected when any error is reported; next to a sibling that stops the resolution of the type statement (unbound extension prefix, repeated fraction-digits) an inadmissible restriction must still not pass without any error; literals of extreme length and small value (longlits.go): decimal bounds with 19 to 1025 (and 65535 to 65554; thorough also 2^12, 2^15, 2^17) fraction digits that are zeros but for the last one(s), zero fractions, trailing zeros, fractions of nines, integer parts with that many leading zeros (alone, with a fraction inside / one digit beyond the scale), integer and length bounds with that many leading zeros (octal in Go's base-0 syntax: 0...07, 0...08, 0...0377, 0...0400, 2^64-1 and 2^64, 2^63), after 0x / 0b / 0o, with underscores, 1 followed by that many zeros, with signs; each as single value, upper bound after 0 / 1 / min, lower bound before max, between -x and x, beside a second part; called directly and under decimal64 at fraction-digits 1, 2, 9, 18 (core shapes thorough: 1..18) / uint8, int8, uint64, int64 / string lengths and under restricted parents of them; runs of that many blanks, tabs, line feeds, dots, bars, signs; restrictions of 13, 255, 256, 257, 513 parts (apart, touching, descending, identical, overlapping, one outside the parent, one in a gap); seeded random long literals (lengths next to multiples of 256 and 65536, up to three non-zero digits); the Go outcome of each of these is judged by spec.step and once more by spec.written, in which every plain literal is read by its written value in exact arithmetic by a reader that shares nothing with the model's digit loops (Drv/Range.lean, namespace Written); bounds with points (genSyntax, pointBounds): several points, a point next to a sign, a lone point, points with blanks, exponents, hex, underscores, non-ASCII digits and points, each as single value, lower and upper bound, in several parts, read as integer, length and decimal64 bound at fraction-digits 1, 2, 4, 9, 18, directly, under the built-in type and as second step under a restricted parent (spec.step states the literal shape on the characters: a decimal bound is [sign] digits [. digits], an integer or length bound has no point; anything else accepted = accepted although syntactically invalid (a point directly followed by a sign is refused since the repair of D10-S1, /repo 6916d90)); pass-through levels (passthrough.go, section pass_through): chains of 2..8 typedef levels in which 1..3 typedefs that add no restriction of the kind (nothing, an empty type body, patterns, units, default, description, status/reference) stand before the first restriction, between any two and after the last, 1..5 restricting steps going down a ladder of nested sets with the last step narrowing, widening (up to the limits of the base type), equal, disjoint and written with min/max, for the eight integer types, decimal64 at fraction-digits 1, 2, 9, 18, string and binary lengths; the levels at the top of one module, split over an imported module, inside a container, split between module level and a list in a container, below an imported prefix inside a used grouping, referenced with and without the own prefix, the last restriction on a typedef or on a leaf (a chain whose last restriction is on a leaf is resolved alone when typedefs of the batch are in error, Process returning before leaves are converted); all systematic layouts with one or two pass-through positions plus seeded random layouts; the outcome must be the model's outcome for the restricting steps alone, every step is judged by spec.step against the set of the restricting step before it, and the leaf of every pass-through typedef must present the inherited set; exported methods Contains/Equal/Validate/Sort/String on all lists of <= 2 parts over {0..4} (Contains: all pairs), over a signed universe with -0, over the 64-bit extremes at fd 0, 1, 18, all lists of 3 parts over {0..3}, random lists. Every Go outcome is compared with the model and judged by the executable specification. distinct_nontrivial = distinct inputs that have more than one part, a min/max keyword or more than one step (chains), or a list of more than one part (methods)"
 	res.Write(f.Out)
 }
 
